@@ -460,6 +460,7 @@ class TreeGen:
         n = self.draw(st.integers(1, 4))
         terms = []
         cols = self.info['real'] + self.info['pos'] + [c[0] for c in self.info['int']] + self.info['bool']
+        cols = [c for c in cols if c not in getattr(self, 'not_in_linutil', ())]
         for _ in range(n):
             b = self._beta()
             if b[0] != 'Beta':
